@@ -189,8 +189,14 @@ func mkErr(kind, what, name string) error {
 	panic("HARNESS-ERROR unknown error kind " + kind)
 }
 
-func (s StoreSpec) series(e Entry) *storepb.Series {
-	ser := &storepb.Series{Labels: labelpb.ZLabelsFromPromLabels(lset(e.L, e.R))}
+// series builds one series message; strip = the store was asked for WithoutReplicaLabels and supports it, so it
+// sends the series without the replica label (the per-store order is unaffected: one replica value per store).
+func (s StoreSpec) series(e Entry, strip bool) *storepb.Series {
+	r := e.R
+	if strip {
+		r = 0
+	}
+	ser := &storepb.Series{Labels: labelpb.ZLabelsFromPromLabels(lset(e.L, r))}
 	for _, id := range e.C {
 		ser.Chunks = append(ser.Chunks, mkChunk(id))
 	}
@@ -198,7 +204,7 @@ func (s StoreSpec) series(e Entry) *storepb.Series {
 }
 
 // frames builds fresh response objects (the proxy may modify them in place).
-func (s StoreSpec) frames() []*storepb.SeriesResponse {
+func (s StoreSpec) frames(strip bool) []*storepb.SeriesResponse {
 	var out []*storepb.SeriesResponse
 	i := 0
 	cut := s.F
@@ -207,13 +213,13 @@ func (s StoreSpec) frames() []*storepb.SeriesResponse {
 	}
 	for _, k := range cut {
 		if k == 0 {
-			out = append(out, storepb.NewSeriesResponse(s.series(s.E[i])))
+			out = append(out, storepb.NewSeriesResponse(s.series(s.E[i], strip)))
 			i++
 			continue
 		}
 		var b []*storepb.Series
 		for j := 0; j < k; j++ {
-			b = append(b, s.series(s.E[i]))
+			b = append(b, s.series(s.E[i], strip))
 			i++
 		}
 		out = append(out, storepb.NewBatchResponse(b))
@@ -241,12 +247,20 @@ func (c *fakeStore) Matches([]*labels.Matcher) bool     { return true }
 
 func (c *fakeStore) errorf(what string) error { return mkErr(c.spec.Kind, what, c.name) }
 
-func (c *fakeStore) Series(ctx context.Context, _ *storepb.SeriesRequest, _ ...grpc.CallOption) (storepb.Store_SeriesClient, error) {
+func (c *fakeStore) Series(ctx context.Context, req *storepb.SeriesRequest, _ ...grpc.CallOption) (storepb.Store_SeriesClient, error) {
 	c.asked.Add(1)
 	if c.spec.Fault == "open" {
 		return nil, c.errorf("open")
 	}
-	st := &stream{ctx: ctx, frames: c.spec.frames(), failAt: -1, hangAt: -1}
+	// a store that supports without_replica_labels removes the requested replica label itself; for one that
+	// does not (NoWRL) the proxy removes it and re-sorts
+	strip := false
+	for _, l := range req.WithoutReplicaLabels {
+		if l == ReplicaLabel && c.SupportsWithoutReplicaLabels() {
+			strip = true
+		}
+	}
+	st := &stream{ctx: ctx, frames: c.spec.frames(strip), failAt: -1, hangAt: -1}
 	switch c.spec.Fault {
 	case "recv":
 		st.failAt = c.spec.At
